@@ -16,6 +16,7 @@ func init() {
 	vRegister("H_C20_hashenv", H_C20_hashenv)
 	vRegister("H_C20_verify", H_C20_verify)
 	vRegister("H_C20_builtin_signers", H_C20_builtin_signers)
+	vRegister("H_C20_builtin_empty", H_C20_builtin_empty)
 	vRegister("H_C20_encoders_refuse_empty", H_C20_encoders_refuse_empty)
 	vRegister("H_C20_sign_message", H_C20_sign_message)
 }
@@ -276,6 +277,57 @@ func H_C20_builtin_signers() {
 	vAssert("builtin: nothing stored", len(msg.Signature) == 0)
 	out, merr := Sign1(vRand(), signer, Headers{}, vBlob("p2"), nil)
 	vAssert("builtin: Sign1 returns the error and no bytes", merr != nil && out == nil)
+	vReach("end")
+}
+
+// emptyCryptoSigner: a key (HSM / KMS wrapper) that reports success but hands back nothing, or a truncated result
+type emptyCryptoSigner struct {
+	pub crypto.PublicKey
+	out []byte
+}
+
+func (f *emptyCryptoSigner) Public() crypto.PublicKey { return f.pub }
+func (f *emptyCryptoSigner) Sign(r io.Reader, d []byte, o crypto.SignerOpts) ([]byte, error) {
+	return f.out, nil
+}
+
+// built-in signers over such a key: no helper returns a message, nothing non-empty is invented
+func H_C20_builtin_empty() {
+	var alg Algorithm
+	var pub crypto.PublicKey
+	switch vChoose("family", 3) {
+	case 0:
+		alg, pub = AlgorithmES256, &vECKey("ec", vCurveByIndex(0)).PublicKey
+	case 1:
+		alg, pub = AlgorithmPS256, &vRSAKeyValid("rsa").PublicKey
+	case 2:
+		alg, pub = AlgorithmEdDSA, ed25519.PublicKey(vBlobN("edpub", 32, 32))
+	}
+	var ret []byte
+	if vChoose("ret", 2) == 1 {
+		ret = []byte{}
+	}
+	key := &emptyCryptoSigner{pub: pub, out: ret}
+	signer, err := NewSigner(alg, key)
+	vAssume(err == nil)
+	sig, serr := signer.Sign(vRand(), vBlob("content"))
+	vAssert("empty key result: the signer returns an error or passes the emptiness on", serr != nil || len(sig) == 0)
+	var out []byte
+	var herr error
+	switch vChoose("helper", 4) {
+	case 0:
+		out, herr = Sign1(vRand(), signer, Headers{}, vBlob("payload"), nil)
+	case 1:
+		out, herr = Sign1Untagged(vRand(), signer, Headers{}, vBlob("payload"), nil)
+	case 2:
+		out, herr = SignHashEnvelope(vRand(), signer, Headers{}, HashEnvelopePayload{HashAlgorithm: AlgorithmSHA256, HashValue: vBlobN("hash", 32, 32)})
+	case 3:
+		m := &SignMessage{Headers: Headers{Protected: ProtectedHeader{}, Unprotected: UnprotectedHeader{}}, Payload: vBlob("payload"), Signatures: []*Signature{NewSignature()}}
+		if herr = m.Sign(vRand(), nil, signer); herr == nil {
+			out, herr = m.MarshalCBOR()
+		}
+	}
+	vAssert("empty key result: no helper returns a message", herr != nil && out == nil)
 	vReach("end")
 }
 
